@@ -49,6 +49,8 @@ MCSpec == MCInit /\ [][MCNext]_vars
 
 \* the declarative statement on the operational hooked operators
 Inv_C07H == LET A(m, md, x) == AnsH(c, h, m, md, x) IN \A s \in Probes : P_C07H(c, h, s, A)
+\* C08 for hooked converters: the modes of every method differ only in how failure is reported
+Inv_C08H == LET A(m, md, x) == AnsH(c, h, m, md, x) IN \A s \in Probes : P_C08(c, s, A)
 \* with the base class's hook the hooked operators are Conv's, and P_C07H is P_C07
 Inv_Base == step = 0 => /\ \A s \in Probes : SameAsBase(c, s)
                         /\ LET A(m, md, x) == Ans(c, m, md, x) IN \A s \in Probes : P_C07(c, s, A) /\ P_C07H(c, NoHook, s, A)
